@@ -207,6 +207,24 @@ def check(case):
         case.equal(P.n_parameters(), L.n_parameters(), 'posterior n_parameters')
         case.equal(P.get_parameter_names(), L.get_parameter_names(), 'posterior names')
 
+    # whole-number parameters typed as integers (int array, list / tuple of Python ints) are the same vector
+    if s['oos'] is None and not s.get('signed') and not s.get('long'):
+        with case.clause('integer_vector'):
+            p_i = np.maximum(1, np.round(np.abs(params))).astype(int)
+            p_f = p_i.astype(float)
+            want_i = float(np.real(llbuild.ref_ll(ll, p_f)))
+            case.close(L(p_f.copy()), want_i, rtol=1e-9, what='log-likelihood at a whole-number vector (floats)')
+            for label, arg in (('an int array', p_i), ('a list of Python ints', p_i.tolist()),
+                               ('a tuple of Python ints', tuple(p_i.tolist()))):
+                case.close(L(arg), want_i, rtol=1e-9, what='log-likelihood for whole numbers given as %s' % label)
+                case.close(np.sum(L.compute_pointwise_ll(arg)), want_i, rtol=1e-9,
+                           what='sum(pointwise) for whole numbers given as %s' % label)
+                sc_i, g_i = L.evaluateS1(arg)
+                sc_f, g_f = L.evaluateS1(p_f.copy())
+                case.close(sc_i, want_i, rtol=1e-9, what='evaluateS1 score for whole numbers given as %s' % label)
+                case.close(np.asarray(g_i, dtype=float), np.asarray(g_f, dtype=float), rtol=1e-12,
+                           what='evaluateS1 gradient for whole numbers given as %s vs as floats' % label)
+
     # A parameter is fixed, re-fixed at another value (as in a profile scan) and released again: every evaluation
     # uses the value of the LAST call.
     if s['oos'] is None and len(params) >= 2:
